@@ -37,14 +37,18 @@ def run(prop, tier):
     vec = dict(timer=RS.timer_vectors(tier))
     wt = [(m, s_, nb, wi) for m in (3, 7, 10, 40) for s_ in (0, 4, 9) for nb in (0, 1, 3) for wi in ((0, 1, 5, 6, 10, 12, 25) if tier == "quick" else (0, 1, 2, 3, 5, 6, 9, 10, 11, 12, 25, 39, 40, 41, 100))]
     vec["wait_timers"] = dict(cases=[dict(mp=m, sp=s_, nops_before=nb, wait_i=wi, steps_after=60) for m, s_, nb, wi in wt])
-    res = RS.run(vec, ["timer", "wait_timers"])
-    v.absorb(RS.reports(res, vec, ["timer", "wait_timers"]), known, expect_obligations=False)
+    vec["timer_restore"] = dict(all=True)
+    res = RS.run(vec, ["timer", "wait_timers", "timer_restore"])
+    v.absorb(RS.reports(res, vec, ["timer", "wait_timers", "timer_restore"]), known, expect_obligations=False)
     v.obligations, v.discharged = before
     v.bounded.append(RS.summarize(res, "timer", "TimerContext::tick_timers on the compiled crate: all period pairs 0..%d x 0..%d (0 = off)%s, enabled and disabled; tick every cycle 0..39, "
                                   "monotone sequences with gaps up to 2^21, reset at a non-zero base, restored targets that are already due, ISR pre-set to 0x00/0x80/0x03/0x54; "
                                   "expected fired pair, next targets and ISR byte from the closed form of the advance() contract" % ((6, 6, "") if tier == "quick" else (12, 12, " plus 4 large pairs"))))
     v.bounded.append(RS.summarize(res, "wait_timers", f"CoreRuntime::step over NOPs, one WAIT and NOPs on the compiled crate, {len(wt)} cases (main period 3/7/10/40, sub period off/4/9, 0/1/3 NOPs before, WAIT counts {sorted(set(x[3] for x in wt))}): "
                                   "a step raises a status bit iff a period boundary lies in its cycle interval, next target strictly in the future and on the boundary grid, zero-period timers silent; laws stated in the Rust test"))
+    v.bounded.append(RS.summarize(res, "timer_restore", "TimerContext::apply_snapshot_info on the compiled crate: receiving contexts built with periods 8/32, 0/0, 5/7 x saved periods {0,3,7} x {0,4,9} x saved targets "
+                                  "before / at / after the current cycle x enabled on/off: the restored fields are exactly the saved ones; ticked every cycle for 60 cycles a zero-period timer never fires and the others fire on "
+                                  "their boundaries (closed form from the saved target and period)"))
     v.assumptions = [
         "mathematical (unbounded) integers for periods, targets and cycle counts: no machine-width assumption",
         "loop invariant of advance(): period > 0, target = target0 + k*period (ghost k >= 0), target - period <= cycle; variant cycle - target + 1",
